@@ -126,6 +126,7 @@ func runConformance(r *mc.Run, c lockCfg, e *engb.Explorer) {
 	var done, failed atomic.Int64
 	mc.Parallel(len(paths), runtime.NumCPU(), func(i int) {
 		if r.Expired() {
+			r.Cap("time budget reached: conformance replay cut short")
 			return
 		}
 		if err := engb.Conformance(c.genesis(), c.keys(), []common.Address{{}, tk2Addr}, paths[i]); err != nil {
